@@ -53,6 +53,22 @@ def canon_sx(x):
     return x
 
 
+def strip_types(txt):
+    tree = sexpr.read_one(txt)
+
+    def untype(x):
+        out, i = [], 0
+        while i < len(x):
+            if x[i] == "-":
+                i += 2
+                continue
+            out.append(untype(x[i]) if isinstance(x[i], list) else x[i])
+            i += 1
+        return out
+
+    return interp.read_state_tree([":state"] + untype(tree))
+
+
 def canon_text(txt):
     try:
         return canon_sx(sexpr.read_one(txt))
@@ -297,7 +313,9 @@ def exec_op(env, ops, i, store):
             return ("state", C.abs_state(c, "State.copy", ID))
         if k == "serialize":
             return ("state", interp.read_state_text(st.serialize()))
-        return ("text", canon_text(st.typed_serialize()))
+        # the type annotation a fact carries depends on which effect added it first (set iteration order), so it is not
+        # part of the state's value: the typed text is compared with the annotations stripped
+        return ("state", strip_types(st.typed_serialize()))
     if k == "trajectory":
         try:
             tr = lib.TrajectoryExporter(d, allow_invalid_actions=o["allow"]).parse_plan(
